@@ -206,8 +206,9 @@ static void scenario_history(Src &s) {
 }
 
 // ------------------------------------------------------------------ (b) layered reads with a fault at each consulted file
-enum Fault { FL_NONE = 0, FL_CALLBACK, FL_OWNER, FL_MALFORMED, FL_DANGLING, FL_VANISH, FL_NFAULTS };
-static const char *const FLN[FL_NFAULTS] = {"none", "callback_rejection", "foreign_owner", "malformed_line", "dangling_symlink", "vanished_in_callback"};
+enum Fault { FL_NONE = 0, FL_CALLBACK, FL_OWNER, FL_MALFORMED, FL_DANGLING, FL_VANISH, FL_DIRPERM, FL_NFAULTS };
+static const char *const FLN[FL_NFAULTS] = {"none", "callback_rejection", "foreign_owner", "malformed_line", "dangling_symlink", "vanished_in_callback",
+                                            "directory_permission"};
 
 static void scenario_tree(Src &s) {
   g_case.tag("layered_read");
@@ -227,7 +228,7 @@ static void scenario_tree(Src &s) {
     c.masked = false;
     cons.push_back(c);
   }
-  int fault = (int)s.weighted({12, 22, geteuid() == 0 ? 16 : 0, 20, 15, 15});
+  int fault = (int)s.weighted({12, 22, geteuid() == 0 ? 16 : 0, 20, 15, 15, 8});
   if (cons.empty()) fault = FL_NONE;
   if (ep == 4 && (fault == FL_CALLBACK || fault == FL_VANISH)) fault = FL_MALFORMED;
   size_t at = cons.empty() ? 0 : s.below((uint32_t)cons.size());
@@ -243,6 +244,21 @@ static void scenario_tree(Src &s) {
     // suffix-less reads consult "." and ".." too: keep the directories acceptable
     econf_requireOwner(0);
   }
+  if (fault == FL_DIRPERM) {
+    // a permission requirement the files satisfy and their directories do not (no generated directory is
+    // world-writable): the first consulted file is refused after its own mode has been accepted
+    econf_requirePermissions(S_IRUSR, S_IWOTH);
+    at = 0;
+  }
+  // drop-ins-only mode replaces the object's CONFIG_DIRS list by {".d"}: give it a list to replace
+  if (pa.dropins_only() && pa.confdirs_mode == 0 && s.chance(40)) {
+    pa.obj_postfixes = {".x.d", "/y.d"};
+    pa.confdirs_mode = 1;
+    g_case.tag("config_dirs_item_in_dropins_only_mode");
+  }
+  // the caller's options object may have been through a failing read before (readConfig entry points)
+  pa.warmup_failed_read = s.chance(15);
+  if (pa.warmup_failed_read) g_case.tag("object_reused_after_failed_read");
   std::string victim = cons.empty() ? std::string() : collapse_slashes(cons[at].path(g_scr.dir));
   static const char *EPN[5] = {"readConfigWithCallback", "readDirsWithCallback", "readDirsHistoryWithCallback", "readFileWithCallback", "readConfig"};
   g_case.desc = std::string(EPN[ep]) + " fault=" + FLN[fault] + " at " + std::to_string(at) + "/" + std::to_string(cons.size()) + " " + describe(t, pa);
